@@ -85,7 +85,13 @@ class Line:
 class FakePort:
     """The pyserial surface that plotink uses, scripted by a Chooser."""
 
-    def __init__(self, board, chooser=None, profile=QUIET, tag=""):
+    _serial = [0]
+
+    def __init__(self, board, chooser=None, profile=QUIET, tag="", os_name=None):
+        # like a pyserial Serial object: .port / .name hold the OS device name.  Unique unless
+        # the harness deliberately re-opens the same device (a re-plugged board).
+        FakePort._serial[0] += 1
+        self.port = self.name = os_name or f"/dev/ttyFAKE{FakePort._serial[0]}"
         self.board = board
         self.chooser = chooser
         self.profile = profile
